@@ -28,7 +28,7 @@ def gen_streams(ctx):
     # exhaustive small domain, one job per configuration
     for c in cfgs.split(","):
         jobs.append(("exh", ["exh", 3 if quick else 4, 2, c]))
-    jobs.append(("sizes", ["sizes", 56 if quick else 400]))
+    jobs.append(("sizes", ["sizes", 88 if quick else 600]))
     jobs.append(("long", ["long", 8 if quick else 48]))
     jobs.append(("far", ["far", 24 if quick else 240]))
     procs = []
